@@ -20,6 +20,8 @@ MISC_MMAP_BUILD_ID = 1 << 14
 MISC_SWITCH_OUT = 1 << 13
 
 S_IP, S_TID, S_TIME, S_CALLCHAIN, S_CPU, S_PERIOD = 1, 2, 4, 32, 128, 256
+S_IDENTIFIER = 1 << 16
+MAIN_ID, TRACKING_ID = 11, 22          # the event ids of the two attributes of a two-event file
 SAMPLE_TYPE = S_IP | S_TID | S_TIME | S_CPU | S_PERIOD | S_CALLCHAIN
 
 F_DISABLED, F_INHERIT, F_MMAP, F_COMM, F_TASK, F_SAMPLE_ID_ALL, F_MMAP2, F_COMM_EXEC, F_CONTEXT_SWITCH = 1, 2, 1 << 8, 1 << 9, 1 << 13, 1 << 18, 1 << 23, 1 << 24, 1 << 26
@@ -41,7 +43,7 @@ def _cstr8(s):
 
 
 # the sample_type in force (module-level so that every record writer and build() agree); set_layout() switches it for one file
-_layout = {"sample_type": SAMPLE_TYPE}
+_layout = {"sample_type": SAMPLE_TYPE, "task_event": None}
 
 
 def set_layout(cpu=True, period=True, ip=True, callchain=True):
@@ -56,13 +58,27 @@ def set_layout(cpu=True, period=True, ip=True, callchain=True):
     if period:
         st |= S_PERIOD
     _layout["sample_type"] = st
+    _layout["task_event"] = None
 
 
-def _trailer(pid, tid, time, cpu=0):
-    # sample_id_all trailer for TID | TIME [| CPU]
+def set_task_event(k):
+    """k = None: one event (cpu-clock).  k = 0 / 1: two events recorded together - cpu-clock (attribute 0, the main event, id MAIN_ID) and a software
+    dummy event (attribute 1, id TRACKING_ID), as perf writes it when it appends a tracking event; every record then carries PERF_SAMPLE_IDENTIFIER and
+    the task records (FORK / COMM / EXIT / MMAP2) belong to attribute k"""
+    _layout["task_event"] = k
+    if k is None:
+        _layout["sample_type"] &= ~S_IDENTIFIER
+    else:
+        _layout["sample_type"] |= S_IDENTIFIER
+
+
+def _trailer(pid, tid, time, cpu=0, main=False):
+    # sample_id_all trailer for TID | TIME [| CPU] [| IDENTIFIER]; task records carry the id of the attribute chosen by set_task_event
     b = struct.pack("<IIQ", pid, tid, time)
     if _layout["sample_type"] & S_CPU:
         b += struct.pack("<II", cpu, 0)
+    if _layout["sample_type"] & S_IDENTIFIER:
+        b += struct.pack("<Q", MAIN_ID if (main or _layout["task_event"] == 0) else TRACKING_ID)
     return b
 
 
@@ -100,7 +116,7 @@ def sample(pid, tid, time, ip, callchain, cpu=0, period=1, kernel=False):
     if callchain is None:
         callchain = [PERF_CONTEXT_USER, ip]
     st = _layout["sample_type"]
-    body = (struct.pack("<Q", ip) if st & S_IP else b"") + struct.pack("<IIQ", pid, tid, time)
+    body = (struct.pack("<Q", MAIN_ID) if st & S_IDENTIFIER else b"") + (struct.pack("<Q", ip) if st & S_IP else b"") + struct.pack("<IIQ", pid, tid, time)
     if st & S_CPU:
         body += struct.pack("<II", cpu, 0)
     if st & S_PERIOD:
@@ -112,7 +128,7 @@ def sample(pid, tid, time, ip, callchain, cpu=0, period=1, kernel=False):
 
 def switch(pid, tid, time, cpu=0, out=False):
     """PERF_RECORD_SWITCH: no body, only the sample_id_all trailer; misc bit 13 = switch-out"""
-    return _rec(PERF_RECORD_SWITCH, MISC_SWITCH_OUT if out else 0, _trailer(pid, tid, time, cpu))
+    return _rec(PERF_RECORD_SWITCH, MISC_SWITCH_OUT if out else 0, _trailer(pid, tid, time, cpu, main=True))
 
 
 def finished_round():
@@ -136,16 +152,34 @@ def build(records, arch="x86_64", first_time=None, last_time=None, period=100000
                        0,                # sample_regs_intr
                        0, 0, 0)          # aux_watermark, sample_max_stack, reserved
     assert len(attr) == 112
-    attr_entry = attr + struct.pack("<QQ", 0, 0)          # empty ids section
-    attr_size = len(attr_entry)                             # 128
-    data = b"".join(records)
     header_size = 104
-    attr_off = header_size
+    data = b"".join(records)
+    if _layout["task_event"] is None:
+        attr_entry = attr + struct.pack("<QQ", 0, 0)          # empty ids section
+        attr_size = len(attr_entry)                             # 128
+        ids = b""
+    else:
+        # two attributes: cpu-clock (ids [MAIN_ID]) and a software dummy event (config 9, ids [TRACKING_ID]); the id arrays precede the attributes
+        dummy = attr[:8] + struct.pack("<Q", 9) + attr[16:]
+        ids = struct.pack("<QQ", MAIN_ID, TRACKING_ID)
+        attr_entry = attr + struct.pack("<QQ", header_size, 8) + dummy + struct.pack("<QQ", header_size + 8, 8)
+        attr_size = 128
+    attr_off = header_size + len(ids)
     data_off = attr_off + len(attr_entry)
     feat = {}
     a = arch.encode() + b"\0"
     a = a + bytes((-len(a)) % 4)
     feat[HEADER_ARCH] = struct.pack("<I", len(a)) + a
+    if _layout["task_event"] is not None:
+        # HEADER_EVENT_DESC: the reader takes the event ids (and names) from here
+        def hstr(x):
+            b = x.encode() + b"\0"
+            b += bytes(-len(b) % 8)
+            return struct.pack("<I", len(b)) + b
+        desc = struct.pack("<II", 2, 112)
+        for a_, name, i in ((attr, "cpu-clock", MAIN_ID), (dummy, "dummy:HG", TRACKING_ID)):
+            desc += a_ + struct.pack("<I", 1) + hstr(name) + struct.pack("<Q", i)
+        feat[12] = desc
     if first_time is not None:
         feat[HEADER_SAMPLE_TIME] = struct.pack("<QQ", first_time, last_time if last_time is not None else first_time)
     bits = [0, 0, 0, 0]
@@ -161,4 +195,4 @@ def build(records, arch="x86_64", first_time=None, last_time=None, period=100000
         payloads += feat[f]
     hdr = b"PERFILE2" + struct.pack("<QQ", header_size, attr_size) + struct.pack("<QQ", attr_off, len(attr_entry)) + struct.pack("<QQ", data_off, len(data)) + struct.pack("<QQ", 0, 0) + struct.pack("<QQQQ", *bits)
     assert len(hdr) == header_size
-    return hdr + attr_entry + data + table + payloads
+    return hdr + ids + attr_entry + data + table + payloads
